@@ -132,7 +132,7 @@ func (w *world) age() {
 	old := time.Now().Add(-time.Hour)
 	ents, _ := os.ReadDir(w.dir)
 	for _, en := range ents {
-		if !en.IsDir() && en.Name() != "LOCK" {
+		if !en.IsDir() {
 			os.Chtimes(filepath.Join(w.dir, en.Name()), old, old)
 		}
 	}
@@ -229,6 +229,24 @@ func (w *world) do1(s *step) string {
 			w.crashCopy("after a refused commit", before, w.currentRoot())
 		}
 		return fmt.Sprint(ok)
+	case "orphan":
+		// a complete table file that no manifest names (what an interrupted sync leaves behind)
+		if st == nil {
+			return "closed"
+		}
+		c := w.mkChunk()
+		name, data, _, err := nbs.WriteChunks([]chunks.Chunk{c})
+		if err != nil {
+			return "err " + err.Error()
+		}
+		cl, err := st.WriteTableFile(w.ctx, name, 0, 1, nil, func() (io.ReadCloser, uint64, error) {
+			return io.NopCloser(strings.NewReader(string(data))), uint64(len(data)), nil
+		})
+		if err != nil {
+			return "err " + firstLine(err)
+		}
+		cl.Close()
+		return "ok"
 	case "conjoin":
 		if st == nil {
 			return "closed"
@@ -266,6 +284,15 @@ func (w *world) do1(s *step) string {
 			return "err " + firstLine(err)
 		}
 		w.e.Rep.Hit(fmt.Sprintf("prune:deleted>0=%v skipped=%v", stats.FilesDeleted > 0, len(stats.Skipped) > 0))
+		for _, sk := range stats.Skipped {
+			if i := strings.Index(sk, ": "); i >= 0 {
+				sk = sk[i+2:]
+			}
+			if len(sk) > 40 {
+				sk = sk[:40]
+			}
+			w.e.Rep.Hit("prune-skip:" + sk)
+		}
 		return fmt.Sprintf("deleted=%d skipped=%d", stats.FilesDeleted, len(stats.Skipped))
 	case "rawupdate":
 		fm, err := nbs.VerifManOpenFileManifest(w.ctx, w.dir)
@@ -341,8 +368,10 @@ func gen(r *hx.Rng) *kase {
 				s.In = genNested(r, h)
 			}
 			c.Steps = append(c.Steps, s)
-		case x < 65:
+		case x < 62:
 			c.Steps = append(c.Steps, step{Kind: "conjoin", H: h})
+		case x < 70:
+			c.Steps = append(c.Steps, step{Kind: "orphan", H: h})
 		case x < 88:
 			s := step{Kind: "prune", H: h}
 			if r.Chance(1, 2) {
@@ -416,7 +445,7 @@ func main() {
 		run(e, &c, n)
 		return
 	}
-	total := e.N(120, 2500)
+	total := e.N(60, 2000)
 	for i := 0; i < total; i++ {
 		run(e, gen(e.Rng.Fork()), n)
 		n++
